@@ -119,6 +119,19 @@ func RunC11(c *Ctx) {
 			p, err := rjson.SkipValue(d, nil)
 			c.Rec.Evals(1)
 			if err != nil {
+				// "every input on which SkipValue succeeds" includes successes that only occur with a
+				// particular Buffer state (seeded change C11r5-m2: SkipValue's depth check skipped on
+				// a Buffer grown by a deep handler traversal)
+				for _, b := range []*rjson.Buffer{&long, deep} {
+					if pb, eb := rjson.SkipValue(d, b); eb == nil {
+						p, err = pb, nil
+						c.Rec.C("skipvalue_succeeded_only_with_a_used_buffer")
+						break
+					}
+				}
+				c.Rec.Evals(2)
+			}
+			if err != nil {
 				// outside the property; still run the fast skipper (any panic is reported)
 				rjson.SkipValueFast(d, &long)
 				c.Rec.Evals(1)
